@@ -233,6 +233,7 @@ def enum_bigbp(tier):
     if tier == 'thorough':
         yield dict(pop=[2, 4096, 4096])
         yield dict(pop=[3, 2 ** 20, 5])
+        yield dict(pop=[16385, 16384], fill=255)        # more than 2^31 one bits (268 MB of packed data; thorough tier only)
         yield dict(shape=[2, 3, 400001])
         yield dict(shape=[7, 2 ** 22 - 3])
         yield dict(shape=[2 ** 21 + 1, 9])
@@ -245,13 +246,16 @@ def prop_bigbp(case):
         from kyupy import popcount
         shape = tuple(case['pop'])
         n = int(np.prod(shape))
-        a = (((np.arange(n, dtype=np.uint64) * np.uint64(2654435761)) >> np.uint64(7)) % np.uint64(256)).astype(np.uint8).reshape(shape)
+        if 'fill' in case:
+            a = np.full(shape, case['fill'], dtype=np.uint8)
+        else:
+            a = (((np.arange(n, dtype=np.uint64) * np.uint64(2654435761)) >> np.uint64(7)) % np.uint64(256)).astype(np.uint8).reshape(shape)
         ones = np.array([bin(v).count('1') for v in range(256)], dtype=np.int64)
         exp = int(np.bincount(a.ravel(), minlength=256) @ ones)
         got = int(popcount(a))
         if got != exp:
             raise Violation(f'popcount of a uint8 array of shape {shape} ({n} bytes) = {got}, it holds {exp} one bits')
-        return Obs(True, ['popcount_2^24' if n % (1 << 24) == 0 else 'popcount_large'], checks=1)
+        return Obs(True, ['popcount_>2^31_bits' if exp >= 1 << 31 else 'popcount_2^24' if n % (1 << 24) == 0 else 'popcount_large'], checks=1)
     shape = tuple(case['shape'])
     n = int(np.prod(shape))
     a = (((np.arange(n, dtype=np.uint64) * np.uint64(2654435761)) >> np.uint64(9)) % np.uint64(8)).astype(np.uint8).reshape(shape)
